@@ -37,6 +37,8 @@ inductive Macro where
   | closeB (i : Bool)
   | setEvB (i : Bool)
   | forever
+  | feedB (i : Bool)      -- feed buffer i (from `_feed_extended` / the move of set_combine_stderr)
+  | emptyMove             -- set_combine_stderr(True): empty the stderr buffer and, if it held data, feed it to stdout
   deriving DecidableEq, Repr
 
 structure ASt where
@@ -46,6 +48,7 @@ structure ASt where
   eof : Bool := false
   chClosed : Bool := false
   hasPipe : Bool := false
+  combine : Bool := false
   /-- what the holder of the channel lock still has to do (empty and no `own` ⇒ channel lock free) -/
   todo : List Macro := []
   deriving DecidableEq, Repr
@@ -101,6 +104,12 @@ def cmacro (a : ASt) : Option ASt :=
     if (getB a i).pend == .none then some (bstart true { a with todo := rest } i .close true) else none
   | .setEvB i :: rest =>
     if (getB a i).pend == .none then some (bstart true { a with todo := rest } i .setEv true) else none
+  | .feedB i :: rest =>
+    if (getB a i).pend == .none then some (bstart true { a with todo := rest } i .feed true) else none
+  | .emptyMove :: rest =>
+    if a.b2.pend == .none then
+      some (bstart true { a with todo := if a.b2.ne then .feedB false :: rest else rest } true .empty true)
+    else none
 
 def nextIsForever (a : ASt) : Bool :=
   match a.todo with
@@ -129,7 +138,7 @@ def cstepA (a : ASt) : ASt :=
 def chFree (a : ASt) : Bool := a.todo.isEmpty && chReady a
 
 inductive COp where
-  | eof | close | fileno
+  | eof | close | fileno | combineOn | combineOff | feedErr
   deriving DecidableEq, Repr
 
 def cbegin (a : ASt) : COp → ASt
@@ -141,6 +150,9 @@ def cbegin (a : ASt) : COp → ASt
     else { a with chClosed := true, todo := [.closeB false, .closeB true] ++ (if a.hasPipe then [.forever] else []) }
   | .fileno =>
     if a.hasPipe then a else { a with hasPipe := true, todo := [.setEvB false, .setEvB true] }
+  | .combineOn => if a.combine then a else { a with combine := true, todo := [.emptyMove] }
+  | .combineOff => { a with combine := false }
+  | .feedErr => { a with todo := [.feedB a.combine.not] }
 
 inductive Act where
   | bstart (i : Bool) (op : BOp)    -- a client thread gets buffer i's lock and runs the first region
